@@ -263,6 +263,8 @@ package breaker
 //@   ensures result != nil
 //@   ensures implies(wl && had, result == prev)
 //@   ensures implies(wl, inDom(breakers, name) && breakers[name] == result)
+//@   modifies mapof(breakers)
+//@   allocates
 // (trusted frame: constructing a breaker - options, name, window - does not touch the registry of named breakers)
 //@ func NewBreaker
 //@   trusted
@@ -273,3 +275,60 @@ package breaker
 //@   property C01
 //@   modifies nothing
 //@   allocates
+
+// the package-level helpers: the breaker registered for the name runs the caller's functions, unchanged, exactly once
+//@ func do
+//@   property C01
+//@   flag callbacks_noheap
+//@   ghost at after GetBreaker#0: gb = ret
+//@   call GetBreaker#0: assert arg_name == name
+//@   call execute#0: assert arg0 == gb
+//@   ensures calls(execute) == old(calls(execute)) + 1 && result == ret(execute)
+//@ func Do
+//@   property C01
+//@   call do#0: assert arg_name == name
+//@ func DoCtx
+//@   property C01
+//@   call do#0: assert arg_name == name
+//@ func DoWithAcceptable
+//@   property C01
+//@   call do#0: assert arg_name == name
+//@ func DoWithAcceptableCtx
+//@   property C01
+//@   call do#0: assert arg_name == name
+//@ func DoWithFallback
+//@   property C01
+//@   call do#0: assert arg_name == name
+//@ func DoWithFallbackCtx
+//@   property C01
+//@   call do#0: assert arg_name == name
+//@ func DoWithFallbackAcceptable
+//@   property C01
+//@   call do#0: assert arg_name == name
+//@ func DoWithFallbackAcceptableCtx
+//@   property C01
+//@   call do#0: assert arg_name == name
+//@ func Do closure 0
+//@   property C01
+//@   call Do#0: assert arg_recv == b && arg_req == req
+//@ func DoCtx closure 0
+//@   property C01
+//@   call DoCtx#0: assert arg_recv == b && arg_ctx == ctx && arg_req == req
+//@ func DoWithAcceptable closure 0
+//@   property C01
+//@   call DoWithAcceptable#0: assert arg_recv == b && arg_req == req && arg_acceptable == acceptable
+//@ func DoWithAcceptableCtx closure 0
+//@   property C01
+//@   call DoWithAcceptableCtx#0: assert arg_recv == b && arg_ctx == ctx && arg_req == req && arg_acceptable == acceptable
+//@ func DoWithFallback closure 0
+//@   property C01
+//@   call DoWithFallback#0: assert arg_recv == b && arg_req == req && arg_fallback == fallback
+//@ func DoWithFallbackCtx closure 0
+//@   property C01
+//@   call DoWithFallbackCtx#0: assert arg_recv == b && arg_ctx == ctx && arg_req == req && arg_fallback == fallback
+//@ func DoWithFallbackAcceptable closure 0
+//@   property C01
+//@   call DoWithFallbackAcceptable#0: assert arg_recv == b && arg_req == req && arg_fallback == fallback && arg_acceptable == acceptable
+//@ func DoWithFallbackAcceptableCtx closure 0
+//@   property C01
+//@   call DoWithFallbackAcceptableCtx#0: assert arg_recv == b && arg_ctx == ctx && arg_req == req && arg_fallback == fallback && arg_acceptable == acceptable
